@@ -34,12 +34,12 @@ class StopMain(Exception):
     pass
 
 
-def run_main(K, W, settings, code, lock_outcomes, cpus=None, may_fail=None, base_input=None, world=None):
+def run_main(K, W, settings, code, lock_outcomes, cpus=None, may_fail=None, base_input=None, world=None, outputs=None):
     mcworld.Gen.seed_pairs = []
     w = world or mcworld.MCWorld(OUTPUTS, [True, True], False)
     if base_input is not None:
         w.fs['/w/base_input.txt'] = base_input
-    w.fs['/w/settings.txt'] = (''.join('INPUT, ' + ', '.join(s) + '\n' for s in settings) + ''.join(f'OUTPUT, {o}\n' for o in OUTPUTS)
+    w.fs['/w/settings.txt'] = (''.join('INPUT, ' + ', '.join(s) + '\n' for s in settings) + ''.join(f'OUTPUT, {o}\n' for o in (outputs or OUTPUTS))
                                + f'ITERATIONS, {K}\nMC_OUTPUT_FILE, {RESULT}\n')
     obs = []
     state = {'pool_done': False, 'it': 0, 'lock': (True, 0), 'maps': 0}
@@ -351,6 +351,8 @@ def units(tier):
     us += [{'harness': 'main', 'K': K, 'W': 1, 'settings': 0, 'lock_outcomes': False, 'code': 'GEOPHIRESv3.py', 'cpus': cp, 'may_fail': mf} for (K, cp, mf) in MANY[tier]]
     us.append({'harness': 'main', 'history': True, 'lock_outcomes': False})
     us += [{'harness': 'main', 'requests': H, 'lock_outcomes': False} for H in ((2,) if tier == 'quick' else (2, 3))]
+    # an OUTPUT named twice in the settings file
+    us.append({'harness': 'main', 'K': 2, 'W': 1, 'settings': 0, 'lock_outcomes': False, 'code': 'GEOPHIRESv3.py', 'outputs': ['Out A', 'Out B', 'Out A']})
     return us
 
 
@@ -435,6 +437,41 @@ def run_requests_unit(unit):
     yield log.result()
 
 
+def replay_duplicate_outputs():
+    """real main(), real pool, real HIP-RA-X with an OUTPUT named twice in the settings file."""
+    if 'dupout' in _REPLAY:
+        return _REPLAY['dupout']
+    import contextlib
+    import io
+    import warnings
+    from .. import gx
+    d = tempfile.mkdtemp(prefix='symx_c13dup_')
+    cwd, argv = os.getcwd(), sys.argv
+    try:
+        inp, st, out = (os.path.join(d, n) for n in ('hip.txt', 'settings.txt', 'MC_Result.txt'))
+        with open(st, 'w') as f:
+            f.write('INPUT, Reservoir Temperature, normal, 250, 1\nOUTPUT, Producible Electricity (reservoir)\nOUTPUT, Producible Heat (reservoir)\n'
+                    'OUTPUT, Producible Electricity (reservoir)\nITERATIONS, 3\nMC_OUTPUT_FILE, %s\n' % out)
+        with open(inp, 'w') as f:
+            f.write('Reservoir Temperature, 250.0\nRejection Temperature, 60.0\nReservoir Porosity, 10.0\nReservoir Area, 55.0\nReservoir Thickness, 0.25\nReservoir Life Cycle, 25\n')
+        with contextlib.redirect_stdout(io.StringIO()), contextlib.redirect_stderr(io.StringIO()), warnings.catch_warnings():
+            warnings.simplefilter('ignore')
+            try:
+                MC.main(command_line_args=[os.path.join(gx.SRC, 'hip_ra_x', 'hip_ra_x.py'), inp, st, out])
+            except Exception:
+                pass
+        lines = open(out).read().splitlines() if os.path.exists(out) else []
+        n_out = len(lines[0].split(',')) - 1 if lines else 0
+        rows = [ln for ln in lines[1:] if '(' in ln]
+        bad = [ln for ln in rows if len([f for f in ln.partition('(')[0].strip().strip(',').split(',') if f.strip()]) != n_out]
+        _REPLAY['dupout'] = (bool(bad) or not rows, {'header': lines[0] if lines else None, 'rows not matching the header': bad[:3], 'rows': len(rows)})
+    finally:
+        os.chdir(cwd)
+        sys.argv = argv
+        shutil.rmtree(d, ignore_errors=True)
+    return _REPLAY['dupout']
+
+
 def replay_requests(H):
     """the real constructor with the real clock and tempfile: H requests built back to back (same wall-clock second, retried if a second
     boundary was crossed)."""
@@ -464,6 +501,9 @@ def run_unit(unit):
     K, W, si, code, lo = unit['K'], unit['W'], unit['settings'], unit['code'], unit['lock_outcomes']
     settings = [list(s) for s in c13.SETTINGS[si]]
     cfg = {'harness': 'main', 'K': K, 'W': W, 'settings': c13.SETTINGS[si], 'code': code, 'lock_outcomes': lo, 'cpus': unit.get('cpus'), 'may_fail': unit.get('may_fail')}
+    outs = unit.get('outputs') or OUTPUTS
+    if unit.get('outputs'):
+        cfg['OUTPUT lines of the settings file'] = outs
     log = harness.UnitLog(cfg)
     zv = {}
 
@@ -494,9 +534,9 @@ def run_unit(unit):
         r = c13._REPLAYED[key]
         return (r['simulated runs attempted'] is not None and r['simulated runs attempted'] < r['iterations']), r
     world = lambda inp: (True, {'note': 'fact about the real main() running in the in-memory world'})
-    header = ', '.join(OUTPUTS) + ', ' + ', '.join(s[0] for s in settings) + '\n'
+    header = ', '.join(outs) + ', ' + ', '.join(s[0] for s in settings) + '\n'
     n = 0
-    for pr in core.explore(lambda: run_main(K, W, [list(s) for s in settings], code, lo, unit.get('cpus'), unit.get('may_fail')), max_paths=300000):
+    for pr in core.explore(lambda: run_main(K, W, [list(s) for s in settings], code, lo, unit.get('cpus'), unit.get('may_fail'), outputs=unit.get('outputs')), max_paths=300000):
         log.path(pr)
         n += 1
         if pr.error is not None:
@@ -517,6 +557,12 @@ def run_unit(unit):
         body = r['file'][len(header):] if r['file'].startswith(header) else ''
         if not lo:
             harness.discharge(log, c, 'main(): the results file holds exactly one row per successfully simulated iteration', body.count('\n') == ok_rows and len(attempted) == K, zv, concrete_rows)
+        # every row has one value per OUTPUT column the header announces (the header is taken as the file holds it)
+        hdr_line = r['file'].split('\n', 1)[0]
+        n_out = len([x for x in hdr_line.split(',')]) - len(settings)
+        rows_ok = all(len([f for f in ln.partition('(')[0].strip().strip(',').split(',') if f.strip()]) == n_out for ln in body.split('\n') if ln.strip())
+        harness.discharge(log, c, 'main(): every row holds one value per OUTPUT column of the header line', rows_ok, zv,
+                          (lambda inp: replay_duplicate_outputs()) if unit.get('outputs') else world)
         c13.check_obs(log, c, obs, settings, zv, concrete_dups, concrete_dups, first=(n == 1),
                       row_finding=('C13-row-lost-when-lock-not-granted', lambda inp: replay_lock_timeout()))
         if n % 400 == 0:
